@@ -10,15 +10,14 @@ package zzvsync
 import (
 	"fmt"
 	"runtime"
+	"sort"
 	realsync "sync"
 	"unsafe"
 )
 
 type (
 	Locker    = realsync.Locker
-	Once      = realsync.Once
 	WaitGroup = realsync.WaitGroup
-	Map       = realsync.Map
 	Cond      = realsync.Cond
 )
 
@@ -42,7 +41,34 @@ func RegisterReset(f func()) { resets = append(resets, f) }
 
 // ResetAll restores every registered package-level map to its initial value, so that explored
 // executions are independent of each other.
+// RegisterSnapshotReset is called from generated init functions for package-level variables without an
+// initialiser: snap captures their values (after all package init functions have run) and returns the functions
+// that restore them.
+func RegisterSnapshotReset(snap func() []func()) { snaps = append(snaps, snap) }
+
+var snaps []func() []func()
+
+// CloneMap returns a shallow copy of a map (nil stays nil).
+func CloneMap[M ~map[K]V, K comparable, V any](m M) M {
+	if m == nil {
+		return nil
+	}
+	c := make(M, len(m))
+	for k, v := range m {
+		c[k] = v
+	}
+	return c
+}
+
 func ResetAll() {
+	// first call: capture the post-init values of the variables that have no initialiser
+	for _, sn := range snaps {
+		resets = append(resets, sn()...)
+	}
+	snaps = nil
+	// a new epoch: lock state, Once flags and Map contents left behind by the previous execution are dropped the
+	// next time the object is touched (the execution's own set-up, which follows, already counts)
+	epoch++
 	for _, f := range resets {
 		f()
 	}
@@ -127,9 +153,9 @@ type thread struct {
 
 // Race describes an unordered conflicting pair of accesses.
 type Race struct {
-	Site1, Site2 string
+	Site1, Site2   string
 	Write1, Write2 bool
-	T1, T2       int
+	T1, T2         int
 }
 
 type shadow struct {
@@ -153,15 +179,16 @@ type Scheduler struct {
 	shadows      map[uintptr]*shadow
 	// AccessPoints makes every instrumented Access a scheduling point as well.
 	AccessPoints bool
-	Steps        int
-	panicVal     any
-	panicTid     int
-	MaxSteps     int
+	// StmtPoints makes every generated statement hook a scheduling point (needs an overlay built with -stmtpoints).
+	StmtPoints bool
+	Steps      int
+	panicVal   any
+	panicTid   int
+	MaxSteps   int
 }
 
 // NewScheduler creates a scheduler whose choices are answered by c.
 func NewScheduler(c Chooser) *Scheduler {
-	epoch++
 	return &Scheduler{choose: c, yield: make(chan struct{}), shadows: map[uintptr]*shadow{}, MaxSteps: 100000}
 }
 
@@ -365,7 +392,7 @@ func (c *Chan) Recv() (any, bool) {
 
 // ---------------------------------------------------------------- Mutex / RWMutex
 
-// epoch counts schedulers: lock state (holder flags, release clocks) left behind in a package-level mutex by an
+// epoch counts executions (ResetAll calls): lock state (holder flags, release clocks) left behind in a package-level mutex by an
 // earlier execution — in particular by one that ended in a deadlock — must not leak into the next one.
 var epoch int
 
@@ -503,6 +530,164 @@ type rlocker RWMutex
 func (r *rlocker) Lock()   { (*RWMutex)(r).RLock() }
 func (r *rlocker) Unlock() { (*RWMutex)(r).RUnlock() }
 
+// ---------------------------------------------------------------- Once / Map
+//
+// Both are owned by the scheduler too: a tree under test that adds a lazily initialised global (sync.Once) or a
+// cache (sync.Map) must neither make explored executions depend on each other (state is dropped at every new
+// scheduler, like the generated reset hooks do for plain package-level variables) nor hide its synchronisation
+// from the explorer (every operation is a scheduling point with the happens-before edges the real types give).
+
+type Once struct {
+	real realsync.Mutex
+	mu   Mutex
+	done bool
+	ep   int
+}
+
+func (o *Once) Do(f func()) {
+	s := sched
+	if s == nil || s.cur == nil {
+		o.real.Lock()
+		defer o.real.Unlock()
+		if o.ep != epoch {
+			o.ep, o.done = epoch, false
+		}
+		if !o.done {
+			defer func() { o.done = true }()
+			f()
+		}
+		return
+	}
+	if o.ep != epoch {
+		o.ep, o.done = epoch, false
+	}
+	o.mu.Lock() // callers that arrive while f runs wait for it, as with the real Once
+	defer o.mu.Unlock()
+	if !o.done {
+		defer func() { o.done = true }()
+		f()
+	}
+}
+
+type Map struct {
+	real realsync.Mutex
+	m    map[any]any
+	rel  vc
+	ep   int
+}
+
+// enter is the common prologue: outside a scheduler the map is simply locked; under a scheduler the operation is a
+// scheduling point and the map is emptied when it was last used by an earlier execution. write operations
+// publish the caller's clock, every operation acquires what was published.
+func (m *Map) enter(label string, write bool) (unlock func()) {
+	s := sched
+	if s == nil || s.cur == nil {
+		m.real.Lock()
+		if m.ep != epoch {
+			m.ep, m.m, m.rel = epoch, nil, nil
+		}
+		if m.m == nil {
+			m.m = map[any]any{}
+		}
+		return m.real.Unlock
+	}
+	if m.ep != epoch {
+		m.ep, m.m, m.rel = epoch, nil, nil
+	}
+	if m.m == nil {
+		m.m = map[any]any{}
+	}
+	s.point(opOther, nil, nil, "Map."+label)
+	t := s.cur
+	t.vc.join(m.rel)
+	if write {
+		m.rel.join(t.vc)
+		t.vc[t.id]++
+	}
+	return func() {}
+}
+
+func (m *Map) Load(key any) (value any, ok bool) {
+	defer m.enter("Load", false)()
+	value, ok = m.m[key]
+	return
+}
+
+func (m *Map) Store(key, value any) {
+	defer m.enter("Store", true)()
+	m.m[key] = value
+}
+
+func (m *Map) Clear() {
+	defer m.enter("Clear", true)()
+	m.m = map[any]any{}
+}
+
+func (m *Map) LoadOrStore(key, value any) (actual any, loaded bool) {
+	defer m.enter("LoadOrStore", true)()
+	if v, ok := m.m[key]; ok {
+		return v, true
+	}
+	m.m[key] = value
+	return value, false
+}
+
+func (m *Map) LoadAndDelete(key any) (value any, loaded bool) {
+	defer m.enter("LoadAndDelete", true)()
+	value, loaded = m.m[key]
+	delete(m.m, key)
+	return
+}
+
+func (m *Map) Delete(key any) {
+	defer m.enter("Delete", true)()
+	delete(m.m, key)
+}
+
+func (m *Map) Swap(key, value any) (previous any, loaded bool) {
+	defer m.enter("Swap", true)()
+	previous, loaded = m.m[key]
+	m.m[key] = value
+	return
+}
+
+func (m *Map) CompareAndSwap(key, old, new any) (swapped bool) {
+	defer m.enter("CompareAndSwap", true)()
+	if v, ok := m.m[key]; ok && v == old {
+		m.m[key] = new
+		return true
+	}
+	return false
+}
+
+func (m *Map) CompareAndDelete(key, old any) (deleted bool) {
+	defer m.enter("CompareAndDelete", true)()
+	if v, ok := m.m[key]; ok && v == old {
+		delete(m.m, key)
+		return true
+	}
+	return false
+}
+
+// Range calls f on a snapshot taken at one scheduling point (the real Range promises no more than that each key
+// is visited at most once and reflects some state during the call); iteration order is made deterministic.
+func (m *Map) Range(f func(key, value any) bool) {
+	type kv struct{ k, v any }
+	var snap []kv
+	func() {
+		defer m.enter("Range", false)()
+		for k, v := range m.m {
+			snap = append(snap, kv{k, v})
+		}
+	}()
+	sort.Slice(snap, func(i, j int) bool { return fmt.Sprint(snap[i].k) < fmt.Sprint(snap[j].k) })
+	for _, e := range snap {
+		if !f(e.k, e.v) {
+			return
+		}
+	}
+}
+
 // ---------------------------------------------------------------- Pool
 
 type Pool struct {
@@ -592,6 +777,11 @@ var GCHook func(label string)
 func StmtPoint(label string) {
 	if h := GCHook; h != nil {
 		h(label)
+	}
+	// statement-level scheduling (C12's third pass): a thread can be preempted between any two statements of the
+	// library, so state that is published before it is complete is seen half-built by the others
+	if s := sched; s != nil && s.cur != nil && s.StmtPoints {
+		s.point(opOther, nil, nil, label)
 	}
 }
 
